@@ -182,6 +182,8 @@ M(['C04', 'C02'], 'dispatcher-unscheduled-inverted', DS, "      if steps == 1:\n
 M(['C04', 'C02'], 'sharded-dispatch-functions-swapped', DS, "    (new_preconditioners, metrics, _, _) = _update_preconditioners_fn(\n        _internal_inverse_pth_root_all,\n        _update_preconditioners,", "    (new_preconditioners, metrics, _, _) = _update_preconditioners_fn(\n        _update_preconditioners,\n        _internal_inverse_pth_root_all,")
 TW(['C04', 'C02'], 'twin-dispatcher-mirrored', DS, "      preconditioners_flat, metrics_flat = lax.cond(\n          steps == 1,", "      preconditioners_flat, metrics_flat = lax.cond(\n          1 == steps,")
 
+M(['C04', 'C02'], 'scheduled-flag-or', DS, "        decay_preconditioning_compute_steps\n        and end_preconditioning_compute_steps\n        and callable(learning_rate)\n    )\n\n    preconditioning_compute_steps_t = preconditioning_compute_steps\n    if scheduled_preconditioning_compute_steps:\n      preconditioning_compute_steps_t = preconditioning_compute_steps_schedule(\n          learning_rate,\n          preconditioning_compute_steps,\n          end_preconditioning_compute_steps,\n          step,", "        decay_preconditioning_compute_steps\n        or end_preconditioning_compute_steps\n        and callable(learning_rate)\n    )\n\n    preconditioning_compute_steps_t = preconditioning_compute_steps\n    if scheduled_preconditioning_compute_steps:\n      preconditioning_compute_steps_t = preconditioning_compute_steps_schedule(\n          learning_rate,\n          preconditioning_compute_steps,\n          end_preconditioning_compute_steps,\n          step,", count=2)
+
 # ------------------------------------------------------------------ C05
 M(['C05', 'C02'], 'graft-norm-from-grad', DS, "    grafting_update_norm = jnp.linalg.norm(grafting_update)", "    grafting_update_norm = jnp.linalg.norm(grad)")
 M(['C05', 'C02'], 'graft-norm-squared', DS, "      multiplier = (grafting_update_norm / (precond_grad_norm + _EPSILON))", "      multiplier = (grafting_update_norm / (precond_grad_norm**2 + _EPSILON))")
@@ -432,6 +434,12 @@ TW('C13', 'twin-exponent-hoisted', DS, "        for statistic in state.statistic
 M('C13', 'gather-other-axis', DS, "        preconditioners = jax.lax.all_gather(preconditioners, batch_axis_name)\n        metrics = jax.lax.all_gather(metrics, batch_axis_name)\n        preconditioners_flat = unbatch(preconditioners)", "        preconditioners = jax.lax.all_gather(preconditioners, 'batch')\n        metrics = jax.lax.all_gather(metrics, batch_axis_name)\n        preconditioners_flat = unbatch(preconditioners)")
 M('C13', 'quantized-precond-diag-slice', DS, "      ] + packed_quantized_diagonals[total - to_pad:]", "      ] + packed_quantized_diagonals[total - to_pad + 1:]")
 TW('C13', 'twin-pad-formula-variable', DS, "    to_pad = -num_statistics % num_devices\n    packed_statistics.extend([", "    to_pad = (-num_statistics) % num_devices\n    packed_statistics.extend([")
+
+M(['C04', 'C02'], 'pmap-early-return-inverted', DS, "    if not packed_statistics:\n      return states\n\n    if reuse_preconditioner:\n      assert len(prev_preconditioners) == num_statistics\n      packed_preconditioners = pad_and_maybe_zero_preconditioners(", "    if packed_statistics:\n      return states\n\n    if reuse_preconditioner:\n      assert len(prev_preconditioners) == num_statistics\n      packed_preconditioners = pad_and_maybe_zero_preconditioners(")
+M(['C13', 'C08'], 'pmap-redistribution-starts-at-one', DS, "    preconditioners_for_states = []\n    idx = 0\n    metrics_for_states = []", "    preconditioners_for_states = []\n    idx = 1\n    metrics_for_states = []")
+TW('C13', 'twin-pmap-redistribution-unconditional-advance', DS, "        metrics_for_states.append(metrics_for_state)\n\n        idx += num_statistics\n    new_states = []", "        metrics_for_states.append(metrics_for_state)\n\n      idx += num_statistics\n    new_states = []")
+
+M(['C13', 'C07'], 'pmap-slice-back-square', DS, "          _select_preconditioner(error, p[:shape[0], :shape[1]], prev_p))\n\n    assert len(states) == len(num_statistics_per_state)\n    assert len(new_preconditioners_flat) == num_statistics\n    assert len(new_errors_flat) == len(packed_statistics), (", "          _select_preconditioner(error, p[:shape[0], :shape[0]], prev_p))\n\n    assert len(states) == len(num_statistics_per_state)\n    assert len(new_preconditioners_flat) == num_statistics\n    assert len(new_errors_flat) == len(packed_statistics), (")
 
 # ------------------------------------------------------------------ C14
 M2('C14', 'closure-step-counter', [(DS, "  def update_fn(grads, state, params):\n    \"\"\"Transform the input gradient and update all statistics.\n", "  host_steps = [0]\n\n  def update_fn(grads, state, params):\n    \"\"\"Transform the input gradient and update all statistics.\n"),
